@@ -1336,11 +1336,11 @@ func TestHarness(t *testing.T) {
 			}
 			if p := progress.Load(); p != last {
 				last, lastChange = p, time.Now()
-			} else if time.Since(lastChange) > 90*time.Second {
+			} else if time.Since(lastChange) > hx.StallLimit(90*time.Second) {
 				ops, _ := currentHistory.Load().([]string)
 				res.Report(hx.Finding{Kind: "violation", Property: "C12", History: ops,
 					Name: "C12 monitor: every blocked call returns",
-					What: "the implementation did not reach quiescence within 90 s of real time after the last event of this history (a call is blocked outside any channel wait)",
+					What: "the implementation did not reach quiescence within the load-scaled stall limit (at least 240 s of real time) after the last event of this history (a call is blocked outside any channel wait)",
 					Sig:  hx.Sig("C12", "idle", "hang")})
 				res.ModelLines = drv.Lines
 				res.Write(o)
